@@ -35,6 +35,7 @@ type LoopSpec struct {
 	Exits      []*Clause // evaluated when control leaves the loop (break / normal exit)
 	Lets       []*Clause
 	IterLets   []*Clause // evaluated at the start of every iteration (after the loop cut)
+	EndLets    []*Clause // evaluated at the end of every iteration / at loop exit, before the iter / exit clauses
 	Assigns    []string
 	Tags       []string
 }
@@ -360,7 +361,7 @@ func ParseContracts(lines, poss []string) (*Contracts, error) {
 					c := &Clause{Kind: "iter", Tags: ltags, Raw: subrest, Loop: ord, Line: pos}
 					ls.Exits = append(ls.Exits, c)
 					lastClause = c
-				case "let", "iterlet":
+				case "let", "iterlet", "iterend":
 					m := regexp.MustCompile(`^(\w+)\s+(.+?)\s*=\s*(.*)$`).FindStringSubmatch(subrest)
 					if m == nil {
 						return nil, fmt.Errorf("%s: malformed loop let", pos)
@@ -368,6 +369,8 @@ func ParseContracts(lines, poss []string) (*Contracts, error) {
 					c := &Clause{Kind: "let", Name: m[1], Type: m[2], Raw: m[3], Loop: ord, Line: pos}
 					if sub == "let" {
 						ls.Lets = append(ls.Lets, c)
+					} else if sub == "iterend" {
+						ls.EndLets = append(ls.EndLets, c)
 					} else {
 						ls.IterLets = append(ls.IterLets, c)
 					}
@@ -430,6 +433,9 @@ func ParseContracts(lines, poss []string) (*Contracts, error) {
 				fix(c)
 			}
 			for _, c := range l.IterLets {
+				fix(c)
+			}
+			for _, c := range l.EndLets {
 				fix(c)
 			}
 		}
